@@ -201,6 +201,10 @@ struct tuple<> {
     constexpr auto swap(tuple& /*other*/) noexcept -> void { }
 };
 
+// [tuple.cnstr] deduction guide: without it Clang 14 deduces tuple<> for tuple(x, y...) and rejects the call
+template <typename... Ts>
+tuple(Ts...) -> tuple<Ts...>;
+
 /// \brief Swaps the contents of lhs and rhs element by element. Equivalent to lhs.swap(rhs).
 template <typename... Ts>
     requires((is_swappable_v<Ts> and ...))
